@@ -202,6 +202,9 @@ def run_subcheck(prop_id, sub, tier, seed, shard, nshards, known_sigs, time_budg
                 except Violation:
                     f = state["last_fail"]
                     found_sigs[f["sig"]] = f
+                except Exception as e:  # noqa: BLE001
+                    if not _flaky_violation(e, state, found_sigs):
+                        raise
         if sub.strategy is not None and n > 0:
             import hypothesis
             from hypothesis import HealthCheck, Phase, given, settings
@@ -227,11 +230,32 @@ def run_subcheck(prop_id, sub, tier, seed, shard, nshards, known_sigs, time_budg
                     f = state["last_fail"]
                     found_sigs[f["sig"]] = f
                     # next round: this signature is now skipped, search continues behind it
+                except Exception as e:  # noqa: BLE001
+                    if not _flaky_violation(e, state, found_sigs):
+                        raise
     except Exception as e:  # noqa: BLE001  -- harness problem, never a verdict
         res["error"] = f"{type(e).__name__}: {e}\n" + traceback.format_exc()[-3000:]
     res["violations"] = list(found_sigs.values())
     res["wall_s"] = time.time() - t0
     return res
+
+
+def _flaky_violation(exc, state, found_sigs):
+    """Hypothesis re-executes a failing case while shrinking; when the oracle's verdict on the SAME case changes between
+    executions it raises FlakyFailure.  The oracle did observe a violation (state['last_fail']): the code under test
+    answered differently for identical input, which for these properties is itself a defect, not a harness problem.
+    The violation is kept un-shrunk and marked; its replay may pass."""
+    import hypothesis.errors as he
+    flaky = tuple(c for c in (getattr(he, "FlakyFailure", None), getattr(he, "Flaky", None)) if c is not None)
+    if not isinstance(exc, flaky) or isinstance(exc, getattr(he, "FlakyStrategyDefinition", ())):
+        return False
+    f = state.get("last_fail")
+    if f is None:
+        return False
+    f = dict(f, detail="[verdict not reproducible on immediate re-execution of the same case: the code under test "
+                       "is not a function of its inputs] " + f["detail"])
+    found_sigs[f["sig"]] = f
+    return True
 
 
 def write_replay(verif_dir, prop_id, sub_name, failure, subdir="out/replays"):
